@@ -49,3 +49,4 @@ theorem C16_doc_accepts_wrong_max_op :
   | panic p => rw [hl] at key; cases key
 
 end AmVerif.Props.C16Doc
+
